@@ -119,6 +119,8 @@ def offender_conditions(cfg, keys):
 
 def run_case(task):
     cfg, lay_spec, line_specs, want_sample = task
+    # line_specs is one (spec0, specs, spec_last) triple or a list of them (several blocks in one file)
+    block_specs = line_specs if isinstance(line_specs, list) else [line_specs]
     prog = driver.load_program()
     stats = PathStats()
     out = dict(violations=[], samples=[], obligations=0, cover={}, panic_paths=0)
@@ -126,27 +128,39 @@ def run_case(task):
     roles = set()
 
     def run_path(I):
-        spec0, specs, spec_last = line_specs
-        rows = []          # (content line index, key bytes or None, key offset)
-        t0, k0, o0 = make_line(I, cfg, 'L0', spec0)
-        rows.append((0, k0, o0))
-        lines = []
-        for i, sp in enumerate(specs):
-            l, k, o = make_line(I, cfg, 'L%d' % (i + 1), sp)
-            lines.append(l)
-            rows.append((i + 1, k, o))
-        ll, kl, ol = make_line(I, cfg, 'LZ', spec_last)
-        rows.append((len(specs) + 1, kl, ol))
-        lay = Layout(lay_spec[0], lay_spec[1], lay_spec[2], lay_spec[3], lay_spec[4], cfg.attrs, t0, lines, ll)
-        holder['lay'] = lay
-        holder['rows'] = rows
-        res = parse_layout_blocks(I, prog, lay)
-        if res.v != 0 or len(res.f[0].items) != 1:
-            raise EngineError('layout did not parse into one block')
-        cm = I.fresh_bool('content_modified')
-        tm = I.fresh_bool('tag_modified')
-        bwc = mk_bwc(prog, res.f[0].items[0], content_modified=cm, tag_modified=tm)
-        ctx = mk_context(prog, I, [(b'f.js', lay.src, [bwc])])
+        lays = []
+        rows_all = []
+        base_line, base_off = 1, 0
+        src = ()
+        for bi, (spec0, specs, spec_last) in enumerate(block_specs):
+            rows = []
+            t0, k0, o0 = make_line(I, cfg, 'B%dL0' % bi, spec0)
+            rows.append((0, k0, o0))
+            lines = []
+            for i, sp in enumerate(specs):
+                l, k, o = make_line(I, cfg, 'B%dL%d' % (bi, i + 1), sp)
+                lines.append(l)
+                rows.append((i + 1, k, o))
+            ll, kl, ol = make_line(I, cfg, 'B%dLZ' % bi, spec_last)
+            rows.append((len(specs) + 1, kl, ol))
+            lay = Layout(lay_spec[0] if bi == 0 else 0, lay_spec[1], lay_spec[2], lay_spec[3], lay_spec[4], cfg.attrs,
+                         t0, lines, ll, name='blk%d' % bi, base_line=base_line, base_off=base_off, tail=True)
+            lays.append(lay)
+            rows_all.append(rows)
+            src = src + lay.src
+            base_line, base_off = lay.end_line, lay.end_off
+        holder['lays'] = lays
+        holder['rows'] = rows_all
+        holder['src'] = src
+        res = parse_layout_blocks(I, prog, lays)
+        if res.v != 0 or len(res.f[0].items) != len(lays):
+            raise EngineError('layout did not parse into %d block(s)' % len(lays))
+        bwcs = []
+        for bi, b in enumerate(res.f[0].items):
+            cm = I.fresh_bool('content_modified%d' % bi)
+            tm = I.fresh_bool('tag_modified%d' % bi)
+            bwcs.append(mk_bwc(prog, b, content_modified=cm, tag_modified=tm))
+        ctx = mk_context(prog, I, [(b'f.js', src, bwcs)])
         return run_validator(I, prog, cfg.validator, ctx)
 
     def viol(I, cond, role, summary):
@@ -157,50 +171,61 @@ def run_case(task):
             roles.add(role)
             m = I.solver.model()
             out['violations'].append(dict(role=role, summary=summary, cfg=cfg.attrs, code=cfg.code,
-                                          src=model_bytes(m, holder['lay'].src).decode('latin1')))
+                                          src=model_bytes(m, holder['src']).decode('latin1')))
 
     for I, pk, val in explore(prog, models.M, run_path, stats=stats, max_paths=100000):
         if pk == 'panic':
             out['panic_paths'] += 1
             viol(I, z3.BoolVal(True), 'panic', 'panic: %s' % val.msg[:120])
             continue
-        lay = holder['lay']
+        lays = holder['lays']
         stt, res = decode_violations(prog, val)
         if stt == 'err':
             viol(I, z3.BoolVal(True), 'unexpected-error', 'validator returned Err on a well-formed rule')
             continue
-        pos = []
-        for idx, k, off in holder['rows']:
-            if k is None:
-                continue
-            ln, col, _bs = lay.content_lines[idx]
-            pos.append(((ln, col + off), (ln, col + off + len(k) - 1), k))
-        conds, none = offender_conditions(cfg, [p[2] for p in pos])
         vs = res.get(b'f.js', [])
-        if len(vs) > 1 or [p for p in res if p != b'f.js']:
-            viol(I, z3.BoolVal(True), 'more-than-one-violation', 'more than one violation for one block')
-        if not vs:
-            viol(I, z3.Not(none), 'offending-block-passes', 'an offending key exists but nothing is reported')
-            out['cover']['clean'] = out['cover'].get('clean', 0) + 1
-        else:
-            v0 = vs[0]
-            viol(I, none, 'conforming-block-reported', 'no key offends but a violation is reported')
-            rep = (v0['start'], v0['end'])
-            for i, c in enumerate(conds):
-                want = (pos[i][0], pos[i][1])
-                if want != rep:
-                    viol(I, c, 'not-the-first-offender', 'first offending key at %s, reported %s' % (want, rep))
+        if [p for p in res if p != b'f.js']:
+            viol(I, z3.BoolVal(True), 'foreign-file-key', 'violations filed under another file')
+        reported = [(v['start'], v['end']) for v in vs]
+        for v0 in vs:
             if bytes(v0['code']) != cfg.code.encode():
                 viol(I, z3.BoolVal(True), 'wrong-code', 'code %r' % bytes(v0['code']))
-            out['cover']['reported'] = out['cover'].get('reported', 0) + 1
+        justified = {i: [] for i in range(len(reported))}
+        for bi, lay in enumerate(lays):
+            pos = []
+            for idx, k, off in holder['rows'][bi]:
+                if k is None:
+                    continue
+                ln, col, _bs = lay.content_lines[idx]
+                pos.append(((ln, col + off), (ln, col + off + len(k) - 1), k))
+            conds, none = offender_conditions(cfg, [p[2] for p in pos])
+            first_line, last_line = lay.content_lines[0][0], lay.content_lines[-1][0]
+            mine = [r for r in reported if first_line <= r[0][0] <= last_line]
+            if len(mine) > 1:
+                viol(I, z3.BoolVal(True), 'more-than-one-violation', 'more than one violation for one block')
+            if not mine:
+                viol(I, z3.Not(none), 'offending-block-passes', 'an offending key exists in block %d but nothing is reported for it' % bi)
+            for i, c in enumerate(conds):
+                want = (pos[i][0], pos[i][1])
+                if want in reported:
+                    justified[reported.index(want)].append(c)
+                else:
+                    viol(I, c, 'not-the-first-offender' if mine else 'offending-block-passes',
+                         'first offending key of block %d at %s, reported %s' % (bi, want, mine))
+        for ri, cs in justified.items():
+            viol(I, z3.Not(zor(cs)), 'conforming-block-reported',
+                 'violation at %s reported although no key offends there' % (reported[ri],))
+        out['cover']['reported' if reported else 'clean'] = out['cover'].get('reported' if reported else 'clean', 0) + 1
+        if len(reported) >= 2:
+            out['cover']['two violating blocks in one file'] = 1
         out['cover']['mode:' + cfg.mode] = 1
         out['cover']['rule:' + (cfg.rule if isinstance(cfg.rule, str) else cfg.rule[1])] = 1
         if cfg.numeric:
             out['cover']['numeric'] = 1
         if want_sample and len(out['samples']) < 1:
             m = I.ensure_model()
-            out['samples'].append(dict(src=model_bytes(m, lay.src).decode('latin1'), code=cfg.code,
-                                       reported=None if not vs else (vs[0]['start'], vs[0]['end'])))
+            out['samples'].append(dict(src=model_bytes(m, holder['src']).decode('latin1'), code=cfg.code,
+                                       reported=sorted(reported)))
     out.update(Agg(cfg.prop, 'x').stats_from(stats))
     return out
 
@@ -220,14 +245,20 @@ def observe(binary, src, code):
 
 
 def ref_expected(src, code):
-    """Independent reference on concrete text (Python re as the regex engine)."""
+    """Independent reference on concrete text (Python re as the regex engine); all blocks of the file."""
     s = src.decode('latin1')
-    m = re.search(r'<block ([^>]*)>', s)
+    out = []
+    for m in re.finditer(r'<block ([^>]*)>', s):
+        out.extend(_ref_block(s, m, code))
+    return sorted(out)
+
+
+def _ref_block(s, m, code):
     attrs = dict((a, b) for a, b in re.findall(r'([\w-]+)="([^"]*)"', m.group(1)))
     for bare in re.findall(r'(?:^|\s)([\w-]+)(?=\s|$)', re.sub(r'[\w-]+="[^"]*"', ' ', m.group(1))):
         attrs.setdefault(bare, '')
     cstart = s.index('*/', m.end()) + 2
-    cend = s.index('/* </block>')
+    cend = s.index('/* </block>', cstart)
 
     def pos(o):
         return (s.count('\n', 0, o) + 1, o - (s.rfind('\n', 0, o) + 1) + 1)
@@ -281,7 +312,7 @@ def confirm(prop, binary, v, idx):
     v['observed'] = obs
     v['expected'] = want
     got = obs.get('diags')
-    bad = got is None or [tuple(map(tuple, x)) for x in got] != [tuple(map(tuple, x)) for x in want]
+    bad = got is None or sorted(tuple(map(tuple, x)) for x in got) != sorted(tuple(map(tuple, x)) for x in want)
     v['confirmed'] = bool(bad)
     if bad:
         v['replay'] = save_replay(prop, '%s-%d' % (v['role'], idx), {'f.js': src}, 'f.js',
@@ -308,6 +339,11 @@ def gen_tasks(rnd, configs, specs_for, nlines, per_cfg, min_keys=2):
             lay = (0, 0, 1, 0, 0) if i % 3 else (1, 2, 2, 0, 1)
             s0 = (0, 0, 0) if i % 5 else (1, 1, 0)
             tasks.append((cfg, lay, (s0, ls, (0, 0, 0)), i % 4 == 0))
+        # several blocks in one file (each may violate)
+        two = [c for c in short if len(c) == 2][:max(2, per_cfg // 12)]
+        for i, ls in enumerate(two):
+            other = two[(i + 1) % len(two)]
+            tasks.append((cfg, (0, 0, 1, 0, 0), [((0, 0, 0), ls, (0, 0, 0)), ((0, 0, 0), other, (0, 0, 0))], i % 2 == 0))
     return tasks
 
 
@@ -339,8 +375,8 @@ def run_main(prop, tier, configs, specs_for, bounds, assumptions, must_cover, mi
     rnd.shuffle(samples)
     for s in samples[:b['validate']]:
         obs = observe(binary, s['src'].encode('latin1'), s['code'])
-        got = None if obs.get('diags') is None else [tuple(map(tuple, x)) for x in obs['diags']]
-        want = [] if s['reported'] is None else [tuple(map(tuple, s['reported']))]
+        got = None if obs.get('diags') is None else sorted(tuple(map(tuple, x)) for x in obs['diags'])
+        want = sorted(tuple(map(tuple, x)) for x in (s['reported'] or []))
         if got == want:
             agg.validated += 1
         else:
